@@ -96,8 +96,58 @@ func (ev *Env) Goal(e *Expr) (t Term, err error) {
 			return "", err
 		}
 		return imp(a, b), nil
+	case e.Op == "bin" && e.S == "&&":
+		a, err := ev.Goal(e.Args[0])
+		if err != nil {
+			return "", err
+		}
+		b, err := ev.Goal(e.Args[1])
+		if err != nil {
+			return "", err
+		}
+		return and(a, b), nil
+	case e.Op == "call":
+		// a spec macro whose body is quantified: skolemise through it
+		if sf, ok := ev.v.cs.Specs[e.S]; ok && sf.Body != nil && goalShaped(sf.Body) {
+			var n *Env
+			err := func() (err error) {
+				defer func() {
+					if r := recover(); r != nil {
+						if ee, ok := r.(evalErr); ok {
+							err = fmt.Errorf("%s (in %s)", ee.msg, e.String())
+							return
+						}
+						panic(r)
+					}
+				}()
+				args := make([]Val, len(e.Args))
+				for i := range args {
+					args[i] = ev.eval(e.Args[i])
+				}
+				n = ev.specEnv(sf, args)
+				return nil
+			}()
+			if err != nil {
+				return "", err
+			}
+			return n.Goal(sf.Body)
+		}
 	}
 	return ev.Bool(e)
+}
+
+// goalShaped: the expression has a universal quantifier in a positive
+// position reachable through ==> and &&.
+func goalShaped(e *Expr) bool {
+	switch {
+	case e.Op == "q" && e.S == "forall":
+		return true
+	case e.Op == "bin" && e.S == "==>":
+		return goalShaped(e.Args[1])
+	case e.Op == "bin" && e.S == "&&":
+		return goalShaped(e.Args[0]) || goalShaped(e.Args[1])
+	}
+	return false
 }
 
 func (ev *Env) safeSort(name string) (t types.Type, sorts []string, spec string) {
@@ -1139,6 +1189,26 @@ func (ev *Env) call(e *Expr) Val {
 			ts = append(ts, eq(la[i], lb[i]))
 		}
 		return boolVal(and(ts...))
+	case "oidat":
+		// oidat(s, i): the object id made of the 20 bytes s[i..i+20)
+		sv, iv := arg(0), arg(1)
+		if sv.K != KSlice || len(sv.Arr) != 1 {
+			efail("oidat of a non-string")
+		}
+		it := iv
+		if it.K == KLit {
+			it = ev.coerce(it, bvVal("", 64, true, types.Typ[types.Int]))
+		}
+		ot := ev.v.lookupType(nil, "git.OID")
+		if ot == nil {
+			efail("git.OID not found")
+		}
+		parts := make([]Term, 20)
+		for k := 0; k < 20; k++ {
+			parts[k] = ev.c.sliceElem(sv, app("bvadd", it.T, bvLit(64, uint64(k)))).T
+		}
+		out, _ := ev.c.build(ot, []Term{app("concat", parts...)})
+		return out
 	case "hasPrefix":
 		s, p := arg(0), arg(1)
 		return boolVal(ev.c.hasPrefixQ(s, p))
@@ -1152,6 +1222,30 @@ func (ev *Env) call(e *Expr) Val {
 	}
 	efail("unknown function %s in contract", name)
 	return Val{}
+}
+
+// specEnv binds the parameters of a spec macro to the arguments.
+func (ev *Env) specEnv(sf *SpecFn, args []Val) *Env {
+	if len(args) != len(sf.Params) {
+		efail("spec %s: want %d args, got %d", sf.Name, len(sf.Params), len(args))
+	}
+	n := &Env{c: ev.c, v: ev.v, vars: map[string]Val{}, mem: ev.mem, old: ev.old, pkg: ev.v.pkgOf(sf.Pkg)}
+	for i, p := range sf.Params {
+		t, _, spec := n.sortOfTypeName(p.Type)
+		a := args[i]
+		if a.K == KLit {
+			if spec != "" {
+				a = ev.coerce(a, n.mkOfSpecType(spec, []Term{""}))
+			} else {
+				a = ev.coerce(a, ev.c.zeroVal(t))
+			}
+		}
+		if t != nil && a.Typ == nil {
+			a.Typ = t
+		}
+		n.vars[p.Name] = a
+	}
+	return n
 }
 
 func (ev *Env) callSpec(sf *SpecFn, args []Val) Val {
